@@ -2,7 +2,7 @@ ID = "C14"
 
 PROP = {
     "level": "exploration",
-    "rule": ("[unit TestRegisteredByRunningGateway: 1-3 generated flow files, several sharing one URL pattern with different method lists, are loaded by a real HandlingDataManager; an in-process RoundTripper records the expressions it PUTs to the proxy; engine verdict = the flows that ran for the request through routing.Handler] "
+    "rule": ("[unit TestRegisteredByRunningGateway: 1-3 generated flow files, several sharing one URL pattern with different method lists, are loaded by a real HandlingDataManager; an in-process RoundTripper records the expressions it PUTs to the proxy; engine verdict = the flows that ran for the request through routing.Handler; one case in twelve loads 12-51 further flows, one policy reload in six declares 60-303 further endpoints, each of which is probed] "
              "1-3 flow filters (unit 1) or 1-2 policy endpoints (unit 2) whose URL is host (with dots, port, IPv4) + 0-4 segments drawn from "
              "plain / dotted / regex-metacharacter (+ ( ) [ ] ? | $ ^ \\ { } *) / percent-escaped / {param} (word names, and names with "
              ". ~ blank or empty) segments, optional trailing /* or trailing slash, rarely the catch-all '*' / '.*'; method list empty or "
